@@ -24,6 +24,8 @@ RULE = ('Rule-based state machine holding ONE recorder + in-memory cassette and 
         'sampling); operations never fail with framework errors; PROBE rule: a generated probe program (main-thread and '
         'pool-thread interceptions) is recorded and replayed on this recorder and on a fresh recorder with a fresh '
         'cassette: stored keys, data, metadata (minus duration/timestamp/ids) and Playback outputs must be equal. '
+        'A second part uses as history one threaded operation (workers that discard, force sampling and intercept) run '
+        'under the deterministic scheduler (sampled PCT / random schedules), followed by the same idle check and probe. '
         'Non-trivial: a probe preceded by >= 1 abnormal ending (exception, interrupt, discard, failed replay). Distinct = '
         'distinct history up to the probe.')
 ASSUMPTIONS = ['probes use deterministic sampling parameters (the seeded generator is history by design)',
@@ -367,9 +369,88 @@ def make_machine(ctx):
     return Machine
 
 
+# ---- history = a threaded operation under the deterministic scheduler (discards / forcing racing with interceptions)
+
+def probe_after_schedule(ctx, case, chooser=None, account=True):
+    from props import C04
+    from playback.tape_recorder import TapeRecorder
+    from playback.tape_cassettes.in_memory.in_memory_tape_cassette import InMemoryTapeCassette
+
+    def after(rec, cas, prog):
+        idle(rec, 'a threaded operation under this schedule')
+        # probe: one call of every declaration of the same service, in order
+        steps = []
+        for i, d in enumerate(prog['ins']):
+            steps.append({'t': 'in', 'i': i, 'a': 1, 'b': 2, 'usekw': False, 'beh': 'ret', 'ret': ['probe', i],
+                          'name': 'n1', 'exc': 'Err'} if d['kind'] != 'property' else
+                         {'t': 'in', 'i': i, 'a': None, 'b': None, 'usekw': False, 'beh': 'ret', 'ret': ['probe', i],
+                          'name': 'n1', 'exc': 'Err'})
+        for i, d in enumerate(prog['outs']):
+            for k in range(2):
+                steps.append({'t': 'out', 'i': i, 'a': k, 'kw': [], 'beh': 'ret', 'ret': ['ack', i, k], 'exc': 'Err2'})
+        probe = PS.assign_sids({'klass': 'instance', 'ins': copy.deepcopy(prog['ins']),
+                                'outs': copy.deepcopy(prog['outs']), 'steps': steps, 'ending': 'return',
+                                'result': None, 'extractor': 'none'})
+        pool, pool2 = Pool(), Pool()
+        try:
+            here = record_and_replay(rec, cas, probe, pool)
+            fresh_cas = InMemoryTapeCassette()
+            fresh = TapeRecorder(fresh_cas)
+            fresh.enable_recording()
+            there = record_and_replay(fresh, fresh_cas, probe, pool2)
+        finally:
+            pool.close()
+            pool2.close()
+        if here != there:
+            diff = [k for k in set(here) | set(there) if here.get(k) != there.get(k)]
+            raise Violation('after a threaded operation under this schedule, a probe on the same recorder differs from '
+                            'the probe on a fresh recorder at %r:\n used:  %r\n fresh: %r' % (
+                                diff, dict((k, here.get(k)) for k in diff), dict((k, there.get(k)) for k in diff)),
+                            'probe-after-schedule')
+
+    sched = C04.run_scheduled(ctx, case, after=after, account=False, chooser=chooser)
+    if account:
+        ctx.case({'prog': case['prog'], 'trace': ''.join(n[-1] for n in sched.trace)}, sched.preemptions >= 1,
+                 classes=('scheduled-history:' + case['how'],))
+    return sched
+
+
+def dfs_history(ctx, behs, bound):
+    """Every schedule (bounded preemptions) of a tiny two-worker operation, each followed by the probe."""
+    from props import C04
+    from pbt import detsched as DS
+    case = C04.tiny_threaded(behs)
+
+    def on_run(sched):
+        ctx.case({'dfs-history': behs, 'trace': ''.join(n[-1] for n in sched.trace)}, sched.preemptions >= 1,
+                 classes=('scheduled-history-dfs:' + '+'.join(behs),))
+
+    return DS.dfs_explore(lambda chooser: probe_after_schedule(ctx, copy.deepcopy(case), chooser=chooser, account=False),
+                          bound, ctx.shard, ctx.nshards, free_bound=2, max_runs=ctx.pick(4000, 300000), on_run=on_run)
+
+
 def replay(ctx, case):
+    if isinstance(case, dict) and case.get('scheduled'):
+        probe_after_schedule(ctx, case)
+        return
     replay_history(Interp(ctx), case)
 
 
 def run(ctx):
-    run_machine(ctx, make_machine(ctx), ctx.pick(40, 500), ctx.pick(15, 25), label='machine')
+    ok = run_machine(ctx, make_machine(ctx), ctx.pick(40, 500), ctx.pick(15, 25), label='machine')
+    if ok:
+        from props import C05
+        from pbt.runner import hyp_search
+        ok = hyp_search(ctx, C05.scheduled_cases(), lambda c: probe_after_schedule(ctx, c), ctx.pick(60, 1500),
+                        label='scheduled-history')
+    if ok:
+        from pbt.runner import guarded
+        plans = [(['out', 'discard'], 1)] if ctx.quick else [(['out', 'discard'], 2), (['force', 'discard'], 2),
+                                                             (['ret', 'discard'], 2), (['out', 'force'], 1)]
+        for behs, bound in plans:
+            def go(c):
+                runs, complete = dfs_history(ctx, behs, bound)
+                ctx.extra['dfs_runs_' + '+'.join(behs)] = runs
+                ctx.extra['dfs_complete_' + '+'.join(behs)] = bool(complete)
+            if not guarded(ctx, {'dfs-history': behs, 'bound': bound}, go):
+                break
